@@ -75,6 +75,30 @@ def do(op: dict) -> dict:
             if op.get("keep"):
                 KEEP.append((nav, dict(vals)))
         return {"rows": res}
+    if kind == "wbread":
+        # workbook rows read through hand-written schemas: without "position" the listing order is the column order; a property may
+        # be a $ref to an earlier anchored one; two schemas may share the very same column definition objects in another order
+        doc = op["doc"]
+        docs = [doc]
+        if op.get("alias"):
+            keys = list(doc["properties"])
+            keys = keys[1:] + keys[:1]
+            docs.append({"type": "object", "properties": {k: doc["properties"][k] for k in keys}})
+        out = []
+        for d in docs:
+            schema = SI.SchemaMaker.from_json(d)
+            WATCH.append((d, copy.deepcopy(d), schema, copy.deepcopy(schema.json())))
+            unp = SI.WBUnpacker()
+            for row, names in op["reads"]:
+                nav = unp.nav(schema, row)
+                vals = []
+                for n in names:
+                    try:
+                        vals.append(repr(nav.name(n).value()))
+                    except BaseException as ex:  # noqa: BLE001
+                        vals.append(err_enum(ex))
+                out.append({"listing": list(d["properties"]), "row": row, "names": names, "values": vals})
+        return {"reads": out}
     if kind == "drop":
         KEEP.clear()
         gc.collect()
